@@ -41,7 +41,7 @@ pub fn set_baton(on: bool) {
     BATON.store(on, Ordering::SeqCst);
 }
 pub fn baton() -> bool {
-    BATON.load(Ordering::SeqCst)
+    BATON.load(Ordering::Relaxed)
 }
 
 /// id of the simulated thread we are on (None on the driver)
